@@ -795,16 +795,21 @@ def resize_runs(ctx):
                 path.events.append(("area_removed",))
                 return [(M.AREA, path)]
             if name in pushers or any(name == p_ or name.startswith(p_ + "::") for p_ in pushers):
+                # the creation can be refused (a collision with another area)
+                p2 = path.copy()
+                p2.events.append(("recreate_failed", tuple(args[1:])))
                 path.events.append(("recreate", tuple(args[1:])))
-                return [(A.OK(A.UNIT), path)]
+                return [(A.OK(A.UNIT), path), (A.ERR(("recreate_err",)), p2)]
             cb = facts.bodies.get(name)
             if cb is not None and cb.get("impl_self") == AXE and cb["kind"] != "Closure" and name != body["path"] and name != protp:
                 # a public creation wrapper forwarding to a pusher
                 for blk in cb["blocks"]:
                     tt = blk["term"]
                     if tt["k"] == "call" and F.callee_name(tt) in pushers:
+                        p2 = path.copy()
+                        p2.events.append(("recreate_failed", tuple(args[1:])))
                         path.events.append(("recreate", tuple(args[1:])))
-                        return [(A.OK(A.UNIT), path)]
+                        return [(A.OK(A.UNIT), path), (A.ERR(("recreate_err",)), p2)]
             if name == protp:
                 path.events.append(("prot", args[1], args[2]))
                 return [(A.OK(A.UNIT), path)]
@@ -857,6 +862,13 @@ def resize_runs(ctx):
                 starts = [x for x in a_ if not SQ.is_seq(x, atom) and U.strip(x)[0] in ("start_addr", "field")]
                 prots = [e for e in o.path.events if e[0] == "prot"]
                 carried = any(U.strip(e[2]) == ("field", M.AREA, "access") for e in prots)
+                # ... or by a store to the re-created area's mask after the creation (through last_mut(), an index, ...)
+                ri_ = max(i_ for i_, e in enumerate(o.path.events) if e[0] == "recreate")
+                for e in o.path.events[ri_:]:
+                    if e[0] == "store":
+                        fn_ = [p_[2] for p_ in e[1][1] if isinstance(p_, tuple) and p_[0] == "f"]
+                        if fn_[-1:] == ["access"] and U.strip(e[2]) == ("field", M.AREA, "access"):
+                            carried = True
                 elems[("elem", "iterated")] = {"data": datas[0] if datas else ("?",),
                                                "length": SQ.seq_len(datas[0]) if datas else ("?",),
                                                "access": ("field", M.AREA, "access") if carried else ("default-mask",)}
@@ -892,6 +904,10 @@ def resize_copy(ctx):
         ck.undecided_("C10.resize", inst, "vector call outside the sequence model: %s" % unmodelled[0])
     for cname, outcome, elems, path in runs:
         if outcome == "err":
+            evs_ = path.events
+            rem_ = [i_ for i_, e in enumerate(evs_) if e[0] == "area_removed"]
+            if rem_ and not any(e[0] in ("recreate", "area_push") for e in evs_[rem_[-1]:]):
+                abad = abad or "%s: a refused resize has taken the area out of the list and not put it back" % cname
             if elems:
                 abad = abad or "%s: a refused resize has already changed %s of an area" % (
                     cname, "/".join(sorted({f for fs in elems.values() for f in fs})))
